@@ -79,9 +79,9 @@ PROPS = {
              assumptions=["evaluation points interior to the domain by a margin (oracle) / InDomain (theorem)"],
              partial="rounding 'commensurate with conditioning' explored by oracles only; x**0 at x=0 under AD is NaN (outside 'interior of the domain')"),
     "C03": P(["tri"], tb=TRI_TB, assumptions=TRI_AS,
-             partial="the tiling clauses (inside, pairwise disjoint, area sum) are decided by the exact integer oracle on every explored input (exhaustive on the 4x4 lattice up to 6 vertices); the all-input theorems cover non-degeneracy, corners and the local geometry; for triangles, all simple quadrilaterals and strictly convex x-monotone n-gons the count, corners, non-degeneracy and exact total area of the output are theorems (C04Triangle, C04Quad, C04QuadV, C04Convex); pairwise disjointness of the triangles is not proved for n > 4"),
+             partial="the tiling clauses (inside, pairwise disjoint, area sum) are decided by the exact integer oracle on every explored input (exhaustive on the 4x4 lattice up to 6 vertices); the all-input theorems cover non-degeneracy, corners and the local geometry; for triangles, all simple quadrilaterals and all simple x-monotone n-gons with distinct abscissae the count, corners, non-degeneracy and exact total area of the output are theorems (C04Triangle, C04Quad, C04QuadV, C04Convex, C04Monotone); pairwise disjointness of the triangles is not proved for n > 4"),
     "C04": P(["tri"], tb=TRI_TB, assumptions=TRI_AS,
-             partial="acceptance is a theorem for every non-degenerate triangle (C04Triangle.triangle_accepted_general, vertical edges included) and every simple quadrilateral with distinct abscissae (C04Quad.quad_accepted: convex, reflex Bend, improper Start, merging End; two triangles, exact area, ghost order flag true); C04Ties/C04Order justify the comparator's tie rules and the list model of the B-tree; C04QuadV.quad_accepted_general removes the distinct-abscissae hypothesis (vertical edges, aligned vertices); C04Convex.convex_accepted: every strictly convex x-monotone polygon with n >= 3 vertices and distinct abscissae, any start vertex and orientation, yields n-2 non-degenerate triangles with input corners and total area |shoelace|, ghost flag true (induction over the event queue); for other inputs acceptance is decided by exhaustive enumeration + structured generators (the general sweep invariant is not proved)"),
+             partial="acceptance is a theorem for every non-degenerate triangle (C04Triangle.triangle_accepted_general, vertical edges included) and every simple quadrilateral with distinct abscissae (C04Quad.quad_accepted: convex, reflex Bend, improper Start, merging End; two triangles, exact area, ghost order flag true); C04Ties/C04Order justify the comparator's tie rules and the list model of the B-tree; C04QuadV.quad_accepted_general removes the distinct-abscissae hypothesis (vertical edges, aligned vertices); C04Convex.convex_accepted: every strictly convex x-monotone polygon with n >= 3 vertices and distinct abscissae, any start vertex and orientation, yields n-2 non-degenerate triangles with input corners and total area |shoelace|, ghost flag true (induction over the event queue); C04Monotone.monotone_accepted: the same for every simple x-monotone polygon with distinct abscissae, reflex vertices on both chains allowed (the back-chain grows and is cut in fans: polygon-independent fan lemma nt_fwd_fan / nt_bwd_fan); for other inputs acceptance is decided by exhaustive enumeration + structured generators (the general sweep invariant is not proved)"),
     "C15": P(["tri"], tb=TRI_TB, assumptions=TRI_AS,
              partial="C15Heap proves for every input that the model never fails with a heap-encoding panic (model-bad-*), never reaches `unreachable`, and (over XQ) never indexes a missing registered edge (`index`): the only panic kind not excluded outright is a RefCell `borrow` conflict: C15Borrow proves it can only be raised in a pass that starts with a self-loop or coinciding partners among the edges registered with the vertex being handled, an executable monitor of exactly that condition (Model/SweepMon.lean, proved identical to the theorem's monitor in C15Monitor) runs in the driver next to every compared input, and the harness reports any input on which it drops (never observed; the prover's own search of 2.6e8 lattice inputs found none); the deep field-wise `==` of BTreeSet::range's sanity check is modelled by identity only"),
     "C16": P(["tri"], tb=TRI_TB, assumptions=TRI_AS,
@@ -98,7 +98,7 @@ PROPS = {
     "C13": P(["disp2d"], tb=DISP_TB, assumptions=DISP_AS,
              partial="curve end points within a multiple of tol and strict monotonicity per piece are decided by oracles on the prescribed-turning-point class"),
     "C14": P(["disp3d"], tb=DISP_TB, assumptions=DISP_AS, partial="rounding explored with ulp budgets"),
-    "C17": P(["parse"], tb=PARSE_TB, assumptions=[], partial="Rust stack depth / allocation are outside the model: nesting to 400 (1000 thorough) and 4000-char chains are executed under catch_unwind"),
+    "C17": P(["parse", "lists"], tb=PARSE_TB, assumptions=[], partial="Rust stack depth / allocation are outside the model: nesting to 400 (1000 thorough) and 4000-char chains are executed under catch_unwind"),
     "C18": P(["lists"], tb=PARSE_TB, assumptions=[], partial="'correctly rounded' relies on Rust's str::parse (trusted); compared by bits with the generating data"),
     "C19": P(["disp2d", "disp3d"], tb=DISP_TB + PARSE_TB + ["T3 translator translate/wiring.py (regex extraction of parameter lists, contexts, closures, config initialisation)"],
              assumptions=DISP_AS, partial="panic-freedom is decided on explored inputs (inherits C15/C17/C18)"),
@@ -118,7 +118,7 @@ for _pid in ("C07", "C08", "C11", "C12", "C13", "C14", "C17", "C18", "C19", "C20
     PROPS[_pid]["ties"] = ["C06"]
 # the full-path theorems for triangles, quadrilaterals and convex polygons also state C03's clauses for those classes
 # (corners are input vertices, non-degenerate triangles, absolute areas add up to the shoelace area)
-PROPS["C03"]["ties"] = PROPS["C03"]["ties"] + ["C04Triangle", "C04Quad", "C04QuadV", "C04Convex"]
+PROPS["C03"]["ties"] = PROPS["C03"]["ties"] + ["C04Triangle", "C04Quad", "C04QuadV", "C04Convex", "C04Monotone"]
 # Cav/Thm/C01Tables.lean: the Gauss-Kronrod tables in the source are the 10/21-point pair (defects on monomials,
 # embedded nodes, positive weights): an obligation of every property whose model integrates with them
 # Cav/Thm/C05*.lean: the AD operations regenerated from differentiable.rs / basic_arithmetic.rs compute value and true
